@@ -175,6 +175,7 @@ class _Loader(importlib.abc.Loader):
 
     def exec_module(self, module):
         module.__dict__.update(HELPERS)
+        module.__file__ = self.path
         exec(lifted_code(self.path), module.__dict__)
         vs = HELPERS.get('__vspecial__')
         if vs is not None:
